@@ -611,6 +611,8 @@ UNIVERSE_REG = [
     (["ra"], "iv", "s", (4, "30")), (["ra"], "vol", "s", (5, "1K")), (["ra"], "fl", "s", (3, "1.5")),
     (["ra"], "l1", "l", (["x", "y"],)), (["ra"], "l2", "l", ([],)), (["ra"], "ad", "a", ("::1", "80")),
     (["ra", "sub"], "s3", "s", (0, "deep")), ([], "top", "s", (0, "t")), (["rb"], "s1", "s", (0, "other")),
+    # typed settings registered without a default: leaving them out of the next file is a change back to "nothing"
+    (["ra"], "fl2", "s", (3, None)), (["ra"], "i2", "s", (2, None)), (["rb"], "b2", "s", (1, None)),
 ]
 
 
@@ -641,7 +643,7 @@ def corpus_files():
     return out
 
 
-UNIVERSE_NAMES = ["s1", "s2", "i1", "l1", "l2", "ad", "un", "extra", "S1", "fl", "b1"]
+UNIVERSE_NAMES = ["s1", "s2", "i1", "l1", "l2", "ad", "un", "extra", "S1", "fl", "b1", "fl2", "i2", "b2"]
 
 
 @st.composite
@@ -653,15 +655,15 @@ def universe_entries_s(draw, depth=1):
             k = draw(st.sampled_from(["l", "l", "s"]))
         if nm == "ad":
             k = draw(st.sampled_from(["a", "a", "s"]))
-        if nm in ("s1", "s2", "i1", "S1"):
+        if nm in ("s1", "s2", "i1", "i2", "S1"):
             k = draw(st.sampled_from(["s", "s", "s", "l"]))
-        if nm == "fl":
+        if nm in ("fl", "fl2"):
             # float settings, including values that differ from each other (and from the default 1.5) by less than 1e-6
             return [nm, "s", draw(st.sampled_from(["1.5", "2.5", "0.5", "0.5000004", "1.5000001", "1.4999999", "0.0000005", "0", "-0.0000003", "1e3", "bad", "1e-400", "1e999", "-1e999"]))]
-        if nm == "b1":
+        if nm in ("b1", "b2"):
             return [nm, "s", draw(st.sampled_from(["true", "false", "on", "off", "1", "0", "yes", "no", "maybe"]))]
         if k == "s":
-            v = draw(st.sampled_from(["one", "two", "dflt", "7", "0x10", "", "x y", "deep", "t", "One", "ONE", "Dflt", "T"])) if nm != "i1" else draw(st.sampled_from(["7", "8", "0x10", "bad", "-7"]))
+            v = draw(st.sampled_from(["one", "two", "dflt", "7", "0x10", "", "x y", "deep", "t", "One", "ONE", "Dflt", "T"])) if nm not in ("i1", "i2") else draw(st.sampled_from(["7", "8", "0x10", "bad", "-7"]))
             return [nm, "s", v]
         if k == "l":
             return [nm, "l", draw(st.lists(st.sampled_from(["x", "y", "z", "", "X", "Y"]), max_size=3))]
